@@ -30,6 +30,7 @@ import (
 
 	"github.com/zmap/zcrypto/tls"
 	"verifmc/internal/ev"
+	"verifmc/internal/nohb"
 )
 
 // ------------------------------------------------------------------ cases
@@ -781,6 +782,10 @@ func mkWitness(s spec, r result) witness {
 }
 
 func main() {
+	if nohb.IsWorker() {
+		nohb.WorkerMain(reentrantOps(), reentrantRepoDir())
+		return
+	}
 	debug.SetGCPercent(200)                        // many short-lived buffers, tiny live heap
 	if p := os.Getenv("C26_CPUPROFILE"); p != "" { // development aid only
 		if f, err := os.Create(p); err == nil {
@@ -1387,6 +1392,7 @@ func main() {
 				c.Violation(sig, nil)
 			}
 		}
+		reentrantPhase(c)
 		pprof.StopCPUProfile()
 	})
 }
